@@ -85,7 +85,11 @@ func main() {
 			panic(err)
 		}
 	case "oneshot":
-		props.OneShot(os.Args[2], os.Args[3])
+		cfg := 0
+		if len(os.Args) > 4 {
+			fmt.Sscan(os.Args[4], &cfg)
+		}
+		props.OneShot(os.Args[2], os.Args[3], cfg)
 	case "c10load":
 		var seed int64
 		var rounds int
